@@ -27,6 +27,29 @@ unsafe fn t_wake_by_ref(p: *const ()) { let t = tr(p); if t.live.load(SeqCst) <=
 unsafe fn t_drop(p: *const ()) { let t = tr(p); if t.live.fetch_sub(1, SeqCst) <= 0 { t.over_release.fetch_add(1, SeqCst); } }
 static T_VTABLE: std::task::RawWakerVTable = std::task::RawWakerVTable::new(t_clone, t_wake, t_wake_by_ref, t_drop);
 
+/// A caller whose `clone` returns a DISTINCT RawWaker (mode 2): every clone is a record of its own (a stack waker that allocates on clone, per-clone
+/// bookkeeping), the original is record 0.  What a foreign-side waker wakes and releases must be the clone taken for it — never the original, which the
+/// caller still owns.
+struct Rec { tracker: *const Tracker, id: usize, wakes: AtomicUsize, drops: AtomicUsize }
+static RECS: Mutex<Vec<usize>> = Mutex::new(Vec::new());                 // addresses of the (leaked, then reclaimed) records of the current case
+static ORIG_OWNED: std::sync::atomic::AtomicBool = std::sync::atomic::AtomicBool::new(false);
+static ORIG_TOUCHED: AtomicUsize = AtomicUsize::new(0);                   // releases of record 0 while the caller still owns it
+fn new_rec(tracker: *const Tracker) -> *const () {
+    let d = crate::alloc::domain(0);
+    let mut v = RECS.lock().unwrap();
+    let r = Box::into_raw(Box::new(Rec { tracker, id: v.len(), wakes: AtomicUsize::new(0), drops: AtomicUsize::new(0) }));
+    v.push(r as usize);
+    drop(v);
+    crate::alloc::domain(d);
+    r as *const ()
+}
+unsafe fn r_clone(p: *const ()) -> std::task::RawWaker { let r = &*(p as *const Rec); (*r.tracker).live.fetch_add(1, SeqCst); std::task::RawWaker::new(new_rec(r.tracker), &R_VTABLE) }
+unsafe fn r_release(r: &Rec) { if r.id == 0 && ORIG_OWNED.load(SeqCst) { ORIG_TOUCHED.fetch_add(1, SeqCst); } r.drops.fetch_add(1, SeqCst); let t = &*r.tracker; if t.live.fetch_sub(1, SeqCst) <= 0 { t.over_release.fetch_add(1, SeqCst); } }
+unsafe fn r_wake(p: *const ()) { let r = &*(p as *const Rec); r.wakes.fetch_add(1, SeqCst); (*r.tracker).wakes.fetch_add(1, SeqCst); r_release(r); }
+unsafe fn r_wake_by_ref(p: *const ()) { let r = &*(p as *const Rec); r.wakes.fetch_add(1, SeqCst); (*r.tracker).wakes.fetch_add(1, SeqCst); }
+unsafe fn r_drop(p: *const ()) { r_release(&*(p as *const Rec)); }
+static R_VTABLE: std::task::RawWakerVTable = std::task::RawWakerVTable::new(r_clone, r_wake, r_wake_by_ref, r_drop);
+
 struct Shared {
     ops: Vec<Vec<i64>>,
     pos: usize,
@@ -85,10 +108,13 @@ impl Future for Scripted {
 /// params: [1 = the caller's RawWaker has a NULL data pointer (its state lives in a static)]
 pub fn run(params: &[i64], ops: &Rows, mon: &mut Mon) -> Rows {
     NULL_DATA.store(params.get(0).copied().unwrap_or(0) == 1, SeqCst);
+    DISTINCT.store(params.get(0).copied().unwrap_or(0) == 2, SeqCst);
     let r = go(ops, 0, mon);
     NULL_DATA.store(false, SeqCst);
+    DISTINCT.store(false, SeqCst);
     r
 }
+static DISTINCT: std::sync::atomic::AtomicBool = std::sync::atomic::AtomicBool::new(false);
 static NULL_DATA: std::sync::atomic::AtomicBool = std::sync::atomic::AtomicBool::new(false);
 
 /// C19, concurrent part: '119 <threads> | history' — the history runs as usual (wakers obtained inside polls of the opaque future and retained);
@@ -103,7 +129,9 @@ fn go(ops: &Rows, threads: usize, mon: &mut Mon) -> Rows {
     let cw = Arc::new(Tracker { live: std::sync::atomic::AtomicI64::new(1), wakes: AtomicUsize::new(0), wakes_on_dead: AtomicUsize::new(0), over_release: AtomicUsize::new(0) });
     let null_data = NULL_DATA.load(SeqCst);
     if null_data { NULL_DATA_TRACKER.store(Arc::as_ptr(&cw) as *mut Tracker, SeqCst); }
-    let mut orig: Option<Waker> = Some(unsafe { Waker::from_raw(std::task::RawWaker::new(if null_data { std::ptr::null() } else { Arc::as_ptr(&cw) as *const () }, &T_VTABLE)) });
+    let distinct = DISTINCT.load(SeqCst);
+    if distinct { RECS.lock().unwrap().clear(); ORIG_TOUCHED.store(0, SeqCst); ORIG_OWNED.store(true, SeqCst); }
+    let mut orig: Option<Waker> = Some(unsafe { Waker::from_raw(if distinct { std::task::RawWaker::new(new_rec(Arc::as_ptr(&cw)), &R_VTABLE) } else { std::task::RawWaker::new(if null_data { std::ptr::null() } else { Arc::as_ptr(&cw) as *const () }, &T_VTABLE) }) });
     let sh = Arc::new(Mutex::new(Shared { ops: ops.clone(), pos: 0, pool: Vec::new(), rows: Vec::new(), cw: cw.clone(), base: 1 }));
     let fut = Scripted(sh.clone());
     let mut obj = trait_obj!(fut as Future);
@@ -115,6 +143,7 @@ fn go(ops: &Rows, threads: usize, mon: &mut Mon) -> Rows {
             // the executor lets go of its own waker: from now on the wakers retained by the foreign side hold the only references
             let mut s = sh.lock().unwrap();
             s.pos += 1;
+            if orig.is_some() { ORIG_OWNED.store(false, SeqCst); }
             if orig.take().is_some() { s.base = 0; }
             s.record(vec![6, 1, -1]);
         } else if matches!(op[0], 0 | 1) {
@@ -180,6 +209,23 @@ fn go(ops: &Rows, threads: usize, mon: &mut Mon) -> Rows {
     drop(sh);
     let want = if orig.is_some() { 1 } else { 0 };
     if cw.live.load(SeqCst) != want { mon.fail(format!("{} references to the caller's waker alive at the end instead of {}", cw.live.load(SeqCst), want)); }
+    if distinct {
+        // every foreign-side waker is gone: each clone taken on its behalf was released exactly once, and the original was left alone
+        let touched = ORIG_TOUCHED.load(SeqCst);
+        if touched != 0 { mon.fail(format!("the caller's ORIGINAL waker was released {} time(s) by the foreign side while the caller still owned it (the clones taken for the foreign side are distinct wakers)", touched)); }
+        let recs: Vec<usize> = RECS.lock().unwrap().clone();
+        for a in recs.iter().skip(1) {
+            let r = unsafe { &*(*a as *const Rec) };
+            if r.drops.load(SeqCst) != 1 { mon.fail(format!("clone {} of the caller's waker was released {} times (expected exactly once)", r.id, r.drops.load(SeqCst))); break; }
+        }
+    }
+    ORIG_OWNED.store(false, SeqCst);
     drop(orig);
+    if distinct {
+        let d = crate::alloc::domain(0);
+        let recs: Vec<usize> = std::mem::take(&mut *RECS.lock().unwrap());
+        for a in recs { drop(unsafe { Box::from_raw(a as *mut Rec) }); }
+        crate::alloc::domain(d);
+    }
     if threads > 0 { vec![o] } else { out }
 }
